@@ -63,7 +63,8 @@ def entity_decl(e):
 
 def func_decl(f):
     ps = "; ".join("p%d : INTEGER" % (i + 1) for i in range(f["nparams"]))
-    return "FUNCTION %s(%s) : INTEGER;\n  RETURN (p1);\nEND_FUNCTION;\n" % (f["name"], ps)
+    # (the result type is a defined type, so that the result of a call is a reference the resolver has to follow)
+    return "FUNCTION %s(%s) : cnt;\n  RETURN (p1);\nEND_FUNCTION;\n" % (f["name"], ps)
 
 
 AUX = "SCHEMA aux;\nTYPE remote_t = REAL;\nEND_TYPE;\nENTITY remote_e;\n  r1 : remote_t;\nEND_ENTITY;\nEND_SCHEMA;\n"
